@@ -6,6 +6,7 @@
 import Rox.Api
 import Rox.Lemmas.Children
 import Rox.Lemmas.AxisSpec
+import Rox.Lemmas.TextTail
 
 namespace Rox.Props.C11
 open Rox Rox.Api Rox.Spec Rox.Lemmas
@@ -166,5 +167,25 @@ theorem traversals_are_functions_of_the_tree (T : Tables) (txt : Bytes) (opt : O
   have hh := has_is_spec d hw i hi
   exact ⟨axisList_is_spec d hw hs a i hi, axisElement_is_spec d hw hs a i hi,
     children_is_spec d hw hs i hi, hh.1, hh.2, descendants_is_spec d hw i hi⟩
+
+/-- `text()` and `tail()` of every node of every parsed document are determined by the adjacent
+nodes as documented (`textSpec`: of an element the text of its first child if that is a Text node,
+of a comment / text node its own string; `tailSpec`: of an element the text of its next sibling if
+that is a Text node). -/
+theorem text_and_tail_of_parsed (T : Tables) (txt : Bytes) (opt : Opt) (d : Doc)
+    (hlim : opt.nodesLimit ≤ 4294967295) (h : parse T txt opt = .ok d) (i : Nat) (hi : i < d.nodes.size) :
+    textStorage d i = .ok (textSpec d.nodes i) ∧ tailStorage d i = .ok (tailSpec d.nodes i) := by
+  have hs : d.nodes.size ≤ 4294967295 := by
+    have := parse_size_le_limit T txt opt d h; omega
+  exact text_tail_is_spec d (parse_linkWF T txt opt d h) hs i hi
+
+/-- `root_element()` of every parsed document succeeds (its `expect` cannot fail) and is THE element
+child of the root node. -/
+theorem root_element_of_parsed (T : Tables) (txt : Bytes) (opt : Opt) (d : Doc)
+    (hlim : opt.nodesLimit ≤ 4294967295) (h : parse T txt opt = .ok d) :
+    ∃ e, rootElement d = .ok e ∧ e < d.nodes.size ∧ par d.nodes e = some 0 ∧
+      kindIs d.nodes e Kind.isElement = true ∧
+      ∀ j, j < d.nodes.size → par d.nodes j = some 0 → kindIs d.nodes j Kind.isElement = true → j = e :=
+  rootElement_is_spec T txt opt d hlim h
 
 end Rox.Props.C11
